@@ -104,7 +104,7 @@ structure DState where
 
 def mkCfg : Cfg :=
   { strSize := Gen.STR_SIZE, sizeofData := Gen.SIZEOF_DATA, sizeofPoly := Gen.SIZEOF_POLY,
-    sizeofPhrase := Gen.SIZEOF_PHRASE, numWords := Gen.NUM_WORDS, langs := Gen.registry }
+    sizeofPhrase := Gen.SIZEOF_PHRASE, sizeofIdx := Gen.SIZEOF_IDX, numWords := Gen.NUM_WORDS, langs := Gen.registry }
 
 
 def emit (evs : List Event) (res : String) : List String := evs.map showEvent ++ ["< " ++ res]
@@ -197,7 +197,7 @@ def runOp (st : DState) (toks : List String) (r : Recorded) : DState × List Str
   | "pdecode" :: ts =>
     let det := phraseDecode cfg.langs (ts.map unhex)
     let idx := if det.status == .ok then " idx=" ++ ",".intercalate (det.idx.map toString) else ""
-    (st, [s!"< st={det.status.toNat} lang={optNum det.langOut}{idx}"])
+    (st, [showEvent (detectWipe cfg lib), s!"< st={det.status.toNat} lang={optNum det.langOut}{idx}"])
   | "pdecodex" :: li :: ts =>
     let rr := phraseDecodeExplicit (langAt cfg (num li)) (ts.map unhex)
     let idx := if rr.1 == .ok then " idx=" ++ ",".intercalate (rr.2.map toString) else ""
